@@ -377,6 +377,7 @@ type conv struct {
 	helper   bool // the plugin leaves a helper process behind that holds its stderr
 	exit     int  // exit status of the plugin process when it finishes normally
 	onInt    int  // >0: the plugin handles the client's interrupt and exits with this status
+	deaf     bool // the plugin closes its standard input after phase 1: no reply can be delivered
 	stz      int  // which stanza list the identity machine is handed (index into stanzaSets)
 	id       int
 }
@@ -682,6 +683,7 @@ func main() {
 		r.Inconclusive("no ClientUI value saw 2000 plugin messages (most: %d)", maxOnOneUI.msgs)
 	}
 	fuzzStreams(r, env, names)
+	deafStage(r, env, names[0], convs)
 	afterFailedPhase1(r, env)
 	helperStage(r, env, names[0], convs)
 	if hangs.Load() >= 3 {
@@ -760,7 +762,7 @@ var maxOnOneUI struct {
 func runConv(r *mon.Run, env *plug.Env, name string, c *conv) { runConvOn(r, env, name, c, nil) }
 
 func runConvOn(r *mon.Run, env *plug.Env, name string, c *conv, cache *uiCache) {
-	sc := &plug.Script{Burst: c.burst, Helper: c.helper, ExitCode: c.exit, OnInterrupt: c.onInt}
+	sc := &plug.Script{Burst: c.burst, Helper: c.helper, ExitCode: c.exit, OnInterrupt: c.onInt, Deaf: c.deaf}
 	for i, m := range c.msgs {
 		switch m.term {
 		case "exit":
@@ -896,6 +898,18 @@ func runConvOn(r *mon.Run, env *plug.Env, name string, c *conv, cache *uiCache) 
 	desc := c.describe()
 	if res.err != nil && strings.HasPrefix(res.err.Error(), "PANIC") {
 		r.Violate("panic:"+desc, res.err.Error(), replayOf(c))
+		return
+	}
+	if c.deaf {
+		// the plugin asked for at least one reply and cannot have received any:
+		// whatever it went on to say, the call must not report success
+		r.Distinct("deaf " + desc)
+		switch {
+		case res.err == nil:
+			r.Violate("success-although-replies-undeliverable:"+terminalOf(c), fmt.Sprintf("%s, the plugin having closed its standard input after phase 1: the call succeeded although no reply could be delivered", desc), replayOf(c))
+		default:
+			r.Count("deaf_plugin_conversations_failed_as_they_must", 1)
+		}
 		return
 	}
 	tr, err := env.Transcript(name)
@@ -1400,5 +1414,39 @@ func helperStage(r *mon.Run, env *plug.Env, name string, convs []*conv) {
 	}
 	if n == 0 {
 		r.Inconclusive("no conversation was run with a helper process holding the plugin's stderr")
+	}
+}
+
+// deafStage: conversations that the model ends in SUCCESS after at least one
+// message that needs a reply, replayed by a plugin that closes its standard
+// input after phase 1 (and still says everything, "done" included).
+func deafStage(r *mon.Run, env *plug.Env, name string, convs []*conv) {
+	n := 0
+	per := map[string]int{}
+	for _, c := range convs {
+		if c.helper || c.timer || c.burst || c.onInt != 0 || len(c.msgs) < 2 || c.msgs[len(c.msgs)-1].term != "done" {
+			continue
+		}
+		_, _, fin, steps := modelRun(c)
+		if fin == nil || steps != len(c.msgs) || (fin.kind != "stanzas" && fin.kind != "filekey") {
+			continue
+		}
+		cls := fmt.Sprintf("%d:%s", c.machine, c.msgs[0].name)
+		if per[cls] >= 2 {
+			continue
+		}
+		per[cls]++
+		dc := *c
+		dc.deaf = true
+		dc.id = 1 // own ClientUI
+		r.Guard("deaf:"+dc.describe(), func() { runConv(r, env, name, &dc) })
+		n++
+		if n >= r.Pick(60, 400) {
+			break
+		}
+	}
+	r.Set("deaf_plugin_conversations", n)
+	if n < 10 {
+		r.Inconclusive("only %d conversations qualified for the deaf plugin stage", n)
 	}
 }
